@@ -131,12 +131,14 @@ package zapcore
 //@ func zapcore.NewMultiWriteSyncer
 //@   props C13
 //@   flags nopanic
+//@   modifies nothing
 //@   ensures len(ws) == 1 ==> result == ws[0]
 //@   ensures len(ws) != 1 ==> typeof(result) == type(multiWriteSyncer) && as(result, type(multiWriteSyncer)) == ws
 
 //@ func zapcore.AddSync
 //@   props C13
 //@   flags nopanic
+//@   modifies nothing
 //@   ensures implements(w, type(WriteSyncer)) ==> result == w
 //@   ensures !implements(w, type(WriteSyncer)) ==> typeof(result) == type(writerWrapper) && as(result, type(writerWrapper)).Writer == w
 
@@ -150,6 +152,7 @@ package zapcore
 //@ func zapcore.Lock
 //@   props C13
 //@   flags nopanic
+//@   modifies nothing
 //@   ensures typeof(ws) == type(*lockedWriteSyncer) ==> result == ws
 //@   ensures typeof(ws) != type(*lockedWriteSyncer) ==> typeof(result) == type(*lockedWriteSyncer) && fresh(as(result, type(*lockedWriteSyncer))) && as(result, type(*lockedWriteSyncer)).ws == ws
 
@@ -650,3 +653,15 @@ package zapcore
 //@   requires wfField(f) && wfField(other)
 //@   modifies nothing
 //@   ensures result ==> f.Type == other.Type && f.Key == other.Key
+
+// countOK(e, k): number of nil entries among e[0..k) - the successes of a tracked call log.
+//@ spec func countOK(e arr(error), k int) int
+//@ axiom countOK_base: forall e arr(error) :: countOK(e, 0) == 0
+//@ axiom countOK_step: forall e arr(error), k int :: k >= 0 ==> countOK(e, k+1) == countOK(e, k) + (e[k] == nil ? 1 : 0)
+//@ axiom countOK_frame: forall e arr(error), k int, j int, v error :: j >= k ==> countOK(store(e, j, v), k) == countOK(e, k)
+
+//@ func zapcore.NewCore
+//@   props C19 C05
+//@   flags nopanic
+//@   modifies nothing
+//@   ensures typeof(result) == type(*ioCore) && fresh(as(result, type(*ioCore))) && as(result, type(*ioCore)).enc == enc && as(result, type(*ioCore)).out == ws && as(result, type(*ioCore)).LevelEnabler == enab
